@@ -273,6 +273,9 @@ class ListWithAdjustments(object):
       assert self.count_range(begin, end) > 0
       min_key, max_key = self._find_sparse_enough_range(begin, end)
       self._adjust_range(min_key, max_key)
+      # The neighbors themselves may have been relabeled; check against their current keys.
+      begin = self._adj_get_key(index - 1) if index > 0 else 0.0
+      end = self._adj_get_key(index) if index < len(self._orig_list) else begin + count + 1
       assert is_valid_range(begin, self._insertions.irange(begin, end), end)
 
   def _find_sparse_enough_range(self, begin, end):
